@@ -20,12 +20,12 @@ LATTR = AT + '::LineAttribution'
 CFG = {'max_steps': 3000000, 'max_depth': 80}
 
 ALPHA_TEXT = [97, 98, 32, 10, 61]            # a b SP LF =
-ALPHA_TOK = [97, 32, 10, 61, 34, 48, 46, 92, 120, 13]   # a SP LF = " 0 . \ x CR
+ALPHA_TOK = [97, 32, 10, 61, 34, 48, 46, 92, 120, 13, 43, 45]   # a SP LF = " 0 . \ x CR + -
 E_ACUTE = [0xC3, 0xA9]
 HAN = [0xE6, 0xBC, 0xA2]
 
 BOUNDS = {
-    'quick': 'L2 update_attributions: old text of <=3 symbolic bytes over {a b SP LF =} (plus templates with é / 漢 / CRLF), new text = old with one edit (insert / delete / replace of 1-2 symbolic bytes at a fixed position, or identical, or unrelated 3-byte text), <=2 previous attributions chosen from 9 layouts (covering, partial, zero-length, out of range, overlapping, unsorted), authors {human, s1, s2}; L3 line projection: content <=5 symbolic bytes over {a SP LF} (+ multi-byte templates), <=2 attributions from the layouts; round trip lines->chars->lines on the same contents; L4 tokenizer: every string of <=3 bytes over {a SP LF = " 0 . \\ x CR} and templates with é/漢, every sub-range on char boundaries',
+    'quick': 'L2 update_attributions: old text of <=3 symbolic bytes over {a b SP LF =} (plus templates with é / 漢 / CRLF), new text = old with one edit (insert / delete / replace of 1-2 symbolic bytes at a fixed position, or identical, or unrelated 3-byte text), <=2 previous attributions chosen from 10 layouts (covering, partial, zero-length, out of range, overlapping, unsorted, nested with equal author and timestamp), authors {human, s1, s2}; L3 line projection: content <=5 symbolic bytes over {a SP LF} (+ multi-byte templates), <=2 attributions from the layouts; round trip lines->chars->lines on the same contents; L4 tokenizer: every string of <=3 bytes over {a SP LF = " 0 . \\ x CR} and templates with é/漢, every sub-range on char boundaries',
     'thorough': 'as quick with texts of <=5 symbolic bytes, 2-byte edits everywhere, 3 attributions',
 }
 OUTSIDE = 'lines longer than a few bytes and the 32 KiB / 256-line fast paths (thresholds are constants far above the bound); move detection beyond what 4-byte texts allow (needs >=3 equal lines); which minimal edit script imara-diff picks when several exist (one valid script per equality pattern is explored)'
@@ -48,6 +48,7 @@ def layouts(n):
         [(h, h, 's1', 6), (0, n, 'human', 3)],              # zero-length marker
         [(0, n + 3, 's1', 5)],                              # beyond the text
         [(n + 1, n + 2, 's2', 5), (1, n, 's1', 4)],         # out of range + partial
+        [(0, n, 's1', 5), (min(1, n), max(min(2, n), min(1, n)), 's1', 5)],   # nested, same author and timestamp
     ]
 
 
@@ -59,20 +60,22 @@ def plan(tier, seed):
         tasks.append(('tokenize', {'n': n, 'tpl': None}))
     for tpl in ('acute_mid', 'han_lead', 'acute_tail', 'quote_han'):
         tasks.append(('tokenize', {'n': 2, 'tpl': tpl}))
+    tasks.append(('tokenize', {'n': 2, 'tpl': 'sci'}))
+    tasks.append(('tokenize', {'n': 2, 'tpl': 'hex'}))
     # L3 line projection + round trip
     for n in range(0, nmax + 2):
-        for lay in range(9):
+        for lay in range(10):
             tasks.append(('lines', {'n': n, 'tpl': None, 'layout': lay}))
     for tpl in ('acute_mid', 'crlf', 'han_lead'):
         for lay in (1, 3, 5, 6, 7):
             tasks.append(('lines', {'n': 3, 'tpl': tpl, 'layout': lay}))
     # L2 update
     edits = [('same', 0, 0), ('ins', 0, 1), ('ins', 1, 1), ('ins', 'end', 1), ('del', 0, 1), ('del', 'last', 1), ('rep', 1, 1), ('fresh', 0, 1)]
-    lays = [1, 3, 4, 5, 6, 7]
+    lays = [1, 3, 4, 5, 6, 7, 9]
     n_upd = 3
     if tier != 'quick':
         edits += [('fresh', 0, 2), ('ins', 'end', 2), ('del', 1, 1), ('rep', 0, 1), ('ins', 2, 1), ('ins', 1, 2), ('rep', 'last', 2), ('del', 0, 2), ('ins', 3, 1), ('rep', 2, 2), ('fresh', 0, 3)]
-        lays = list(range(9))
+        lays = list(range(10))
         n_upd = 4
     for n in range(0, n_upd + 1):
         for e in edits:
@@ -86,6 +89,9 @@ def plan(tier, seed):
                 if tier == 'quick' and n == 3 and lay in (4, 6) and e[0] not in ('same', 'ins'):
                     continue
                 tasks.append(('update', {'n': n, 'tpl': None, 'edit': list(e), 'layout': lay}))
+    for lay in (1, 2):
+        tasks.append(('update', {'n': 0, 'tpl': 'sci_fixed', 'edit': ['ins', 2, 1], 'layout': lay}))
+        tasks.append(('update', {'n': 0, 'tpl': 'sci_fixed', 'edit': ['rep', 2, 1], 'layout': lay}))
     for tpl in ('acute_mid', 'crlf', 'han_lead'):
         for e in (('same', 0, 0), ('ins', 1, 1), ('del', 0, 1), ('rep', 'last', 1), ('ins', 'end', 1)):
             for lay in ((1, 5, 7) if tier == 'quick' else (1, 3, 5, 7)):
@@ -107,6 +113,12 @@ def text_bytes(h, name, n, tpl, alphabet):
         return sym[:1] + [13, 10] + sym[1:]
     if tpl == 'quote_han':
         return [34] + HAN + sym
+    if tpl == 'sci_fixed':
+        return [49, 101, 53, 10] + sym
+    if tpl == 'sci':
+        return [49, 101] + sym[:1] + [53] + sym[1:]        # 1e?5?
+    if tpl == 'hex':
+        return [48] + sym[:1] + [102] + sym[1:]          # 0?f?
     raise ValueError(tpl)
 
 
@@ -158,11 +170,15 @@ def ob_tokenize(h, shape):
             else:
                 conds.append(neg(any_of([byte_eq(b0, w) for w in (32, 9, 10, 11, 12, 13)])))
         prev_end = e_
+        # the lexeme is the text of the token
+        lex = as_bytes(t.f[names.index('lexeme')])
+        if okk and e_ <= L:
+            conds.append(bytes_equal(list(lex), list(bs[s_:e_])))
         # a token may run past `end` only inside a string literal (documented behaviour: never past the text)
         if e_ > L:
             okk = False
     h.require(okk, 'L4-token-structure', 'tokens not ordered / disjoint / on char boundaries / inside the text')
-    h.require(all_of(conds) if conds else True, 'L4-token-nonblank', 'a token starts with whitespace')
+    h.require(all_of(conds) if conds else True, 'L4-token-nonblank', 'a token starts with whitespace or its lexeme is not the text it spans')
     # every non-whitespace byte of the range is inside some token
     cover = []
     for i in range(a, b):
@@ -313,6 +329,7 @@ def ob_lines(h, shape):
 
 def apply_edit(h, old, edit):
     kind, pos, k = edit
+    ALPHA_TEXT = globals()['ALPHA_TEXT'] + ([43, 45] if (h.shape or {}).get('tpl') == 'sci_fixed' else [])
     n = len(old)
     if pos == 'end':
         pos = n
@@ -432,6 +449,27 @@ def ob_update(h, shape):
                 lo, ln = len(old_lines) - j, len(new_lines) - j
                 h.require(after.get(ln) == before.get(lo), 'L2-unchanged-suffix-line-keeps-author',
                           'trailing line %d is unchanged but its author went %r -> %r' % (ln, before.get(lo), after.get(ln)), known)
+        # text that is new (other than pure whitespace) belongs to the reporting author: at least as many
+        # non-blank bytes carry the reporter's fresh attribution as were inserted (equal neighbours make it
+        # ambiguous WHICH byte is the new one, never how many)
+        if edit[0] == 'ins':
+            pos = edit[1] if isinstance(edit[1], int) else len(old)
+            ins_nonblank = 0
+            for i in range(pos, pos + edit[2]):
+                ws, w = is_ws_at(P, new, i)
+                if not ws:
+                    ins_nonblank += 1
+            credited = 0
+            for i in range(len(new)):
+                if isinstance(new[i], int) and new[i] >= 0x80:
+                    continue
+                ws, w = is_ws_at(P, new, i)
+                if ws:
+                    continue
+                if any(a <= i < b and w_ == who and t_ == 20 for (a, b, w_, t_) in res):
+                    credited += 1
+            h.require(credited >= ins_nonblank, 'L2-inserted-text-belongs-to-reporter',
+                      '%d non-blank bytes were inserted but only %d carry the reporting author\'s new attribution' % (ins_nonblank, credited))
         # text that is new belongs to the reporting author: when the old text is empty, or nothing of it survives
         if n == 0 or edit[0] == 'fresh' and False:
             for li, (b0, b1) in enumerate(new_lines):
